@@ -1,7 +1,7 @@
 #!/usr/bin/env python3
 # Generates MANIFEST.json from the table below (single source of truth for the check registry).
 import json
-HOOKS = ["d9dd131", "17b43f7"]
+HOOKS = ["d9dd131", "17b43f7", "cff2827"]
 checks = {
  "C03": dict(level="model_checking", engine="E1",
    text="Exhaustive BFS over command histories (APPEND incl. \\Deleted, STORE +/-/=, EXPUNGE, UID EXPUNGE, CLOSE+SELECT, COPY/MOVE to the same / another / an already-holding mailbox, from two sessions) of the real server against a Go reference model (flags shared per message, \\Deleted per mailbox, re-add at end); after EVERY transition every mailbox is read through a fresh EXAMINE session (order, flags, exact bytes) and compared with the model; NO/BAD must leave everything unchanged.",
@@ -23,6 +23,14 @@ checks = {
    text="Same transition system as C01 (real server, explicit update delivery). On EVERY reached state the check-extension QUIESCE delivers all held updates to all sessions (real ApplyUpdate), issues NOOP and compares the session's rows with a freshly opened EXAMINE session (UID order and flags, \\Recent ignored). Because the extension runs after every prefix, every placement of the observer's flushes relative to the other parties' steps within the depth is covered.",
    note="Bounds as C01 plus a connector-heavy family. Known findings (ordering defect when a session acts on a message while an older update about it is undelivered) are listed in known_findings.json and matched by discrepancy class + the stale-own-action witness, so other convergence failures are still reported.",
    technique="explicit-state BFS over event histories of the implementation with a quiescence check-extension on every state", design="3/C02"),
+ "C04": dict(level="model_checking", engine="E1",
+   text="Exhaustive BFS over histories of appends, copies, moves, expunge of the highest UID, failing commands, mailbox delete/re-create, renames, connector additions, UIDVALIDITY bumps and server RESTARTs on the real server; the oracle state carried along every path (UID -> message per mailbox name and UIDVALIDITY, highest UID ever assigned, last UIDNEXT, UIDVALIDITY history per name) is checked after every transition through a fresh session, and APPENDUID/COPYUID announcements are compared with what a fresh session finds.",
+   note="Bounds: 2 sessions, 2-3 mailboxes, depth 3 (quick) / 5 (thorough) over a 17-event alphabet. UIDVALIDITY values come from a harness-owned persistent counter (decides gluon's plumbing); the clock-based generator's interleavings are a separate scheduler check (see DESIGN.md).",
+   technique="explicit-state BFS over event histories of the implementation with a history-carrying oracle", design="3/C04"),
+ "C06": dict(level="model_checking", engine="E1",
+   text="Exhaustive BFS over lists of connector updates (every kind x valid / unknown id / protected mailbox / duplicate, ~45 instances) interleaved with client commands and echo deliveries on the real server; every update must be acknowledged (a second Done would panic and kill the worker), a following Noop must still be processed, a valid update's effect on fresh views must equal the reference semantics, and on every reached state every restatement of the current state (echo of the last client action, duplicate of the last update, updates synthesised from the state) must be invisible: no EXISTS/EXPUNGE/FETCH and identical fresh views incl. UIDs.",
+   note="Bounds: 1 observer, 2-3 mailboxes, depth 3 (quick) / 4 (thorough) per family. Updates that refer to unknown, protected or deleted ids are judged for acknowledgement and liveness only; if such an update is accepted with an effect, effects are no longer compared on that path.",
+   technique="explicit-state BFS over update histories of the implementation against reference update semantics, with a replay check-extension on every state", design="3/C06"),
  "C05": dict(level="model_checking", engine="E1",
    text="Exhaustive BFS over removal-heavy histories (connector/other-session removals, re-adds, moves out and back) with the observer's next command ranging over every command kind; a wire monitor checks that no EXPUNGE arrives inside FETCH/STORE/SEARCH (incl. UID forms), that held-back removals are flagged with [EXPUNGEISSUED], that after every permitting command no delivered removal is left unannounced, and (through the mirror and the quiescence oracle) that remove/re-add pairs are announced in order.",
    note="Bounds: <=3 sessions, 2 mailboxes, depth 4/6. Held-back removals are read from the responder queue through the verif dump hook.",
